@@ -540,7 +540,10 @@ class McmcSim:
         if failed or nonfinite or nan_hr:
             expected = "reject"
         elif rec.u is not None and rec.alpha is not None:
-            if abs(rec.alpha - rec.u) <= 1e-12 * max(rec.alpha, 1e-300):
+            la_ref = rec.lp_s2 - rec.lp_s + rec.hr_true
+            if la_ref >= 1e-9:
+                expected = "accept"  # alpha is robustly one and u < 1 always
+            elif abs(rec.alpha - rec.u) <= 1e-12 * max(rec.alpha, 1e-300):
                 self.stats["coin_too_close"] += 1
             else:
                 expected = "accept" if rec.alpha > rec.u else "reject"
@@ -624,6 +627,9 @@ class McmcSim:
         key = "%s|%s|%s|%s|%s|%s" % (self.sc.get("scene_class", "?"), kind, (rec.coin or {}).get("policy", "nocoin"), rec.decision,
                                     "inf" if failed else ("0" if rec.hr == 0 else "finite"), "finite" if not nonfinite else "nonfinite")
         self.states[key] = self.states.get(key, 0) + 1
+        self.probe("transitions:" + kind)
+        if rec.hr_true is not None and not failed:
+            self.probe("hastings_checked:" + kind)
         self.trace.append({"op": rec.op_index, "seed": rec.seed, "coin": rec.coin or {"policy": "uniform", "u": 0.5}})
         self.log.add("finish", rec.t, rec.decision, rec.u, rec.alpha, rec.hr_true, self.lp_cur, tuning_value(op))
         rec.s = rec.s2 = rec.s3 = rec.fresh_s2 = None  # free memory
